@@ -75,7 +75,7 @@ def canon_entry(e):
 
 def canon_file(enc, broken, warned, header, entries):
     return 'ok enc=%s broken=%d warned=%d header=%s n=%d%s' % (
-        enc_str(enc), broken, warned, enc_str(header), len(entries), ''.join(' | ' + canon_entry(e) for e in entries))
+        enc_str(enc if isinstance(enc, str) else repr(enc)), broken, warned, enc_str(header), len(entries), ''.join(' | ' + canon_entry(e) for e in entries))
 
 
 def entry_of_polib(e):
